@@ -349,11 +349,16 @@ def main_():  # noqa
             reported.append((jpath, cls, rep['msg'] + hash_note))
 
     seen_crash = {}
+    crash_deadline = time.time() + float(os.environ.get('VERIF_CRASH_EXAM_S', '240'))
+    crashes_not_examined = 0
     for variant, cseed, rc, tail in crashes:
+        if time.time() > crash_deadline and (reported or known_hits):
+            crashes_not_examined += 1   # enough wall clock spent re-examining dead workers; at least one is already reported
+            continue
         binary = binaries[variant]
         r = sh([binary, 'genplan', '--seed', str(cseed), '--prop', pid, '--tier', tier], cwd=VERIF)
         lines = [l for l in r.stdout.splitlines() if l.strip()] + ['property=' + pid, 'seed=%d' % cseed]
-        rep = run_replay(binary, lines, pid, tmpdir)
+        rep = run_replay(binary, lines, pid, tmpdir, timeout=180)
         if rep['kind'] not in ('crash', 'violation'):
             sim_faults.append('seed %d: worker died (rc=%d) but the seed neither crashes nor fails in isolation (%s)' % (cseed, rc, rep['kind']))
             continue
@@ -379,6 +384,8 @@ def main_():  # noqa
         else:
             reported.append((jpath, cls, rep2['msg']))
 
+    if crashes_not_examined:
+        agg['counters']['dead_workers_not_reexamined'] = crashes_not_examined
     if not agg['samples']:
         # every worker summary was lost (e.g. all workers died): describe at least the first case of this run
         b0 = binaries[phases[0]['variant']]
@@ -439,20 +446,23 @@ def main_():  # noqa
     return 0
 
 def minimise_isolated(binary, lines, pid, kind, cls, tmpdir, budget=150):
-    """class-preserving greedy minimisation for runs that kill the process: every candidate runs in a fresh process"""
+    """class-preserving greedy minimisation for runs that kill the process: every candidate runs in a fresh process.
+    Bounded in wall-clock time too (VERIF_MINIMISE_S, default 90 s): a candidate may hang until its own timeout."""
     n = 0
     improved = True
-    while improved and n < budget:
+    wall = float(os.environ.get('VERIF_MINIMISE_S', '90'))
+    t_end = time.time() + wall
+    while improved and n < budget and time.time() < t_end:
         improved = False
         pf = os.path.join(tmpdir, 'shr-%d.plan' % os.getpid())
         open(pf, 'w').write('\n'.join(lines) + '\n')
         r = sh([binary, 'shrink', '--plan', pf, '--prop', pid], cwd=VERIF)
         cands = [c.strip().split('\n') for c in r.stdout.split('\n--\n') if c.strip()]
         for c in cands:
-            if n >= budget:
+            if n >= budget or time.time() >= t_end:
                 break
             n += 1
-            rep = run_replay(binary, c, pid, tmpdir, timeout=120)
+            rep = run_replay(binary, c, pid, tmpdir, timeout=max(5, min(120, t_end - time.time())))
             if rep['kind'] == kind and rep['cls'] == cls:
                 lines = c
                 improved = True
